@@ -3,8 +3,11 @@
 package gpbft
 
 import (
+	"context"
 	"math"
 	"time"
+
+	"github.com/filecoin-project/go-f3/internal/caching"
 )
 
 // Accessors injected at build time (go build -overlay) by /verif; never committed to /repo.
@@ -50,3 +53,19 @@ func (p *Participant) VerifPhaseTimeout(round uint64, quality bool) int64 {
 func (p *Participant) VerifRebroadcastAfter(attempt int) int64 { return int64(p.rebroadcastAfter(attempt)) }
 func (p *Participant) VerifMaxLookahead() uint64               { return p.maxLookaheadRounds }
 func (p *Participant) VerifRebroadcastImmediatelyAfter() uint64 { return p.rebroadcastImmediatelyAfterRound }
+
+// the real cachingValidator with a caller-supplied progress function and cache dimensions
+type VerifValidator struct{ v *cachingValidator }
+
+func VerifNewValidator(nn NetworkName, verifier Verifier, cp CommitteeProvider, progress func() InstanceProgress, cache *caching.GroupedSet, lookback uint64) *VerifValidator {
+	return &VerifValidator{v: newValidator(nn, verifier, cp, progress, cache, lookback)}
+}
+func (x *VerifValidator) Validate(ctx context.Context, m *GMessage) (ValidatedMessage, error) {
+	return x.v.ValidateMessage(ctx, m)
+}
+func (x *VerifValidator) PartiallyValidate(ctx context.Context, m *PartialGMessage) (PartiallyValidatedMessage, error) {
+	return x.v.PartiallyValidateMessage(ctx, m)
+}
+func (x *VerifValidator) FullyValidate(ctx context.Context, m PartiallyValidatedMessage) (ValidatedMessage, error) {
+	return x.v.FullyValidateMessage(ctx, m)
+}
